@@ -161,8 +161,11 @@ func (h *hook) updateKeys() error {
 	for _, parsedJWK := range parsedJWKs.Keys {
 		publicKey, err := parsedJWK.DecodePublicKey()
 		if err != nil {
-			log.Error("failed to decode JWK into public key", log.Err(err))
-			return err
+			// A set may list keys this hook has no use for (other key types,
+			// parameters that do not decode). Passing over them must not keep
+			// the keys published next to them from taking effect.
+			log.Error("failed to decode JWK into public key", log.Fields{"kid": parsedJWK.Kid, "error": err})
+			continue
 		}
 		keys[parsedJWK.Kid] = publicKey
 	}
